@@ -58,6 +58,10 @@ pub struct C05 {
     /// threads of the process's shared worker pool (only matters to code that submits jobs to it)
     #[serde(default = "default_pool")]
     pub pool: u8,
+    /// history of the process before the observed pipe: `.0` earlier pipes with `.1` workers each
+    /// over a 5-item input, each abandoned after `.2` items (>= 5: consumed completely)
+    #[serde(default)]
+    pub earlier: Option<(u16, u8, u8)>,
 }
 
 fn default_pool() -> u8 {
@@ -117,11 +121,25 @@ pub struct Src {
 pub struct Gate {
     pub seen: std::sync::atomic::AtomicUsize,
     pub waiter: std::sync::atomic::AtomicU32,
+    /// the feed was closed: the upstream ends instead of waiting
+    pub closed: std::sync::atomic::AtomicBool,
 }
 
 impl Gate {
     pub fn new() -> Self {
-        Gate { seen: std::sync::atomic::AtomicUsize::new(0), waiter: std::sync::atomic::AtomicU32::new(u32::MAX) }
+        Gate {
+            seen: std::sync::atomic::AtomicUsize::new(0),
+            waiter: std::sync::atomic::AtomicU32::new(u32::MAX),
+            closed: std::sync::atomic::AtomicBool::new(false),
+        }
+    }
+    /// feeding side: no more input will come
+    pub fn close(&self) {
+        self.closed.store(true, std::sync::atomic::Ordering::SeqCst);
+        let w = self.waiter.swap(u32::MAX, std::sync::atomic::Ordering::SeqCst);
+        if w != u32::MAX {
+            verif_rt::timed::wake(w);
+        }
     }
     /// consumer side: one more output seen
     pub fn advance(&self) {
@@ -155,13 +173,18 @@ impl Iterator for Src {
             let need = (i + 1).saturating_sub(*window);
             let gate = seen.clone();
             verif_rt::timed::wait_until(verif_rt::timed::FOREVER, move || {
-                if gate.seen.load(std::sync::atomic::Ordering::SeqCst) >= need {
+                if gate.seen.load(std::sync::atomic::Ordering::SeqCst) >= need || gate.closed.load(std::sync::atomic::Ordering::SeqCst) {
                     true
                 } else {
                     gate.waiter.store(rt::current_task(), std::sync::atomic::Ordering::SeqCst);
                     false
                 }
             });
+            if seen.seen.load(std::sync::atomic::Ordering::SeqCst) < need {
+                // closed before this item was fed
+                rt::log(Kind::PullEnd, 1, 0);
+                return None;
+            }
         }
         self.next += 1;
         let d = self.delay.get(i).copied().unwrap_or(0);
@@ -258,7 +281,7 @@ impl Scenario for C05 {
         } else {
             vec![]
         };
-        C05 { run_seed, mode: SMode::draw(&mut rng), n, w, shape, fn_delay, src_delay, stall, hinted, poll_after_end, closed_loop, skips, pool: *rng.pick(&[1u8, 2, 2, 3, 4, 8]) }
+        C05 { run_seed, mode: SMode::draw(&mut rng), n, w, shape, fn_delay, src_delay, stall, hinted, poll_after_end, closed_loop, skips, pool: *rng.pick(&[1u8, 2, 2, 3, 4, 8]), earlier: None }.with_history(&mut rng, tier)
     }
 
     fn run_seed(&self) -> u64 {
@@ -268,6 +291,7 @@ impl Scenario for C05 {
     fn size(&self) -> u64 {
         self.n as u64 * 4
             + self.w as u64
+            + self.earlier.map_or(0, |(c, w, _)| 2 + c as u64 * w as u64)
             + if self.shape == Shape::Pipe { 0 } else { 3 }
             + self.fn_delay.iter().chain(&self.src_delay).chain(&self.stall).filter(|d| **d > 0).count() as u64
     }
@@ -320,6 +344,23 @@ impl Scenario for C05 {
             c.closed_loop = None;
             v.push(c);
         }
+        if let Some((count, w, take)) = self.earlier {
+            let mut c = self.clone();
+            c.earlier = None;
+            v.push(c);
+            if count > 1 {
+                for nc in [count / 2, count - 1] {
+                    let mut c = self.clone();
+                    c.earlier = Some((nc, w, take));
+                    v.push(c);
+                }
+            }
+            if w > 1 {
+                let mut c = self.clone();
+                c.earlier = Some((count, w - 1, take));
+                v.push(c);
+            }
+        }
         if !self.skips.is_empty() {
             let mut c = self.clone();
             c.skips = vec![];
@@ -342,7 +383,7 @@ impl Scenario for C05 {
         let mut spec = ProcSpec::new(self.mode.to_mode(), derive(self.run_seed, 100), derive(self.run_seed, 200));
         // generous: the worst correct run observed needs about 4 000 decisions per item (priority
         // scheduling of busy-waiting workers); see the probe max_step_cap_use_permille
-        spec.step_cap = 200_000 + 40_000 * self.n as u64;
+        spec.step_cap = 200_000 + 40_000 * self.n as u64 + self.earlier.map_or(0, |(c, w, _)| 4_000 * c as u64 * w as u64);
         spec.pool_size = self.pool as u32;
         if let Plan::Replay { traces, strict } = plan {
             spec = spec.replaying(traces.first().cloned().unwrap_or_default(), *strict);
@@ -367,6 +408,20 @@ impl Scenario for C05 {
                 rt::log(Kind::FnEnd, x, 1);
                 g_val(x)
             });
+            if let Some((count, w, take)) = sc.earlier {
+                for _ in 0..count {
+                    let h: Pipeline<u64, u64> = Arc::new(|x: u64| x + 1);
+                    let mut p = (0..5u64).pipe(h, w);
+                    for _ in 0..take {
+                        if p.next().is_none() {
+                            break;
+                        }
+                    }
+                    drop(p);
+                    rt::wait_threads_exit();
+                }
+                rt::log(Kind::Note, 6, count as u64);
+            }
             let seen = Arc::new(Gate::new());
             let src = Src {
                 next: 0,
@@ -430,7 +485,6 @@ impl Scenario for C05 {
                         rt::log(Kind::Recv, pos as u64, v);
                         res2.lock().unwrap().push(v);
                         pos += 1;
-                        k += 1;
                     }
                 }
                 rt::log(Kind::Note, 3, 0);
@@ -445,6 +499,12 @@ impl Scenario for C05 {
         stats.probe_max("max_decisions_in_one_run", r.decisions);
         stats.probe_max("max_step_cap_use_permille", r.decisions * 1000 / spec_cap);
         stats.param("w", self.w as i64);
+        if let Some((c, _, _)) = self.earlier {
+            stats.fault("earlier_pipes_in_the_same_process");
+            if c >= 64 {
+                stats.fault("64_or_more_earlier_pipes_abandoned_early");
+            }
+        }
         let got = result.lock().unwrap().clone();
         let violation = self.judge(&r, &got, &mut stats);
         Outcome {
@@ -460,6 +520,21 @@ impl Scenario for C05 {
 }
 
 impl C05 {
+    /// a long-running trainer creates a pipe per epoch / validation run and often abandons it early
+    fn with_history(mut self, rng: &mut Rng, tier: Tier) -> Self {
+        let p = rng.below(1000);
+        let many = if tier == Tier::Quick { 4 } else { 8 };
+        self.earlier = if p < 40 {
+            Some((rng.range(1, 5) as u16, rng.range(1, 4) as u8, rng.below(7) as u8))
+        } else if p < 40 + many {
+            // enough to exhaust any budget of a few hundred (threads, ids of a small integer type ...)
+            Some((*rng.pick(&[64u16, 130, 260]), *rng.pick(&[1u8, 2, 4]), rng.below(3) as u8))
+        } else {
+            None
+        };
+        self
+    }
+
     fn expected(&self) -> Vec<u64> {
         if let Shape::Inference(_, _, max_chars) = self.shape {
             // sequential reference: window and tokenize every text, in order
